@@ -134,7 +134,6 @@ pub fn reim4_save_2blk_to_reim_avx<const OVERWRITE: bool>(
 pub fn reim4_vec_mat1col_product_avx(nrows: usize, dst: &mut [f64], u: &[f64], v: &[f64]) {
     use core::arch::x86_64::{__m256d, _mm256_fmadd_pd, _mm256_loadu_pd, _mm256_setzero_pd, _mm256_storeu_pd};
 
-    #[cfg(debug_assertions)]
     {
         assert!(dst.len() >= 8, "dst must have at least 8 doubles");
         assert!(u.len() >= nrows * 8, "u must be at least nrows * 8 doubles");
@@ -185,9 +184,8 @@ pub fn reim4_vec_mat1col_product_avx(nrows: usize, dst: &mut [f64], u: &[f64], v
 pub fn reim4_vec_mat2cols_product_avx(nrows: usize, dst: &mut [f64], u: &[f64], v: &[f64]) {
     use core::arch::x86_64::{__m256d, _mm256_fmadd_pd, _mm256_fmsub_pd, _mm256_loadu_pd, _mm256_setzero_pd, _mm256_storeu_pd};
 
-    #[cfg(debug_assertions)]
     {
-        assert!(dst.len() >= 8, "dst must be at least 8 doubles but is {}", dst.len());
+        assert!(dst.len() >= 16, "dst must be at least 16 doubles but is {}", dst.len());
         assert!(
             u.len() >= nrows * 8,
             "u must be at least nrows={} * 8 doubles but is {}",
@@ -250,9 +248,8 @@ pub fn reim4_vec_mat2cols_product_avx(nrows: usize, dst: &mut [f64], u: &[f64], 
 pub fn reim4_vec_mat2cols_2ndcol_product_avx(nrows: usize, dst: &mut [f64], u: &[f64], v: &[f64]) {
     use core::arch::x86_64::{__m256d, _mm256_fmadd_pd, _mm256_fmsub_pd, _mm256_loadu_pd, _mm256_setzero_pd, _mm256_storeu_pd};
 
-    #[cfg(debug_assertions)]
     {
-        assert_eq!(dst.len(), 16, "dst must have 16 doubles");
+        assert!(dst.len() >= 8, "dst must have at least 8 doubles");
         assert!(u.len() >= nrows * 8, "u must be at least nrows * 8 doubles");
         assert!(v.len() >= nrows * 16, "v must be at least nrows * 16 doubles");
     }
@@ -349,8 +346,8 @@ pub unsafe fn reim4_convolution_1coeff_avx(k: usize, dst: &mut [f64; 8], a: &[f6
 pub unsafe fn reim4_convolution_2coeffs_avx(k: usize, dst: &mut [f64; 16], a: &[f64], a_size: usize, b: &[f64], b_size: usize) {
     use core::arch::x86_64::{__m256d, _mm256_fmadd_pd, _mm256_fnmadd_pd, _mm256_loadu_pd, _mm256_setzero_pd, _mm256_storeu_pd};
 
-    debug_assert!(a.len() >= 8 * a_size);
-    debug_assert!(b.len() >= 8 * b_size);
+    assert!(a.len() >= 8 * a_size);
+    assert!(b.len() >= 8 * b_size);
 
     let k0: usize = k;
     let k1: usize = k + 1;
@@ -534,7 +531,7 @@ pub unsafe fn reim4_convolution_by_real_const_2coeffs_avx(k: usize, dst: &mut [f
 
     let b_size: usize = b.len();
 
-    debug_assert!(a.len() >= 8 * a_size);
+    assert!(a.len() >= 8 * a_size);
 
     let k0: usize = k;
     let k1: usize = k + 1;
